@@ -577,9 +577,16 @@ impl Reg {
         };
         match delta.cmp(&0) {
             Ordering::Less => {
+                // spread the deficit over the outcomes that can actually occur
                 let delta = delta.unsigned_abs();
-                let delta = (delta >> self.q_num, delta % self.q_mask);
-                for (idx, n) in n.iter_mut().enumerate() {
+                let possible = p.iter().filter(|&&p| p > 0.0).count().max(1);
+                let delta = (delta / possible, delta % possible);
+                for (idx, (n, _)) in n
+                    .iter_mut()
+                    .zip(p.iter())
+                    .filter(|(_, &p)| p > 0.0)
+                    .enumerate()
+                {
                     *n += delta.0;
                     if idx < delta.1 {
                         *n += 1;
